@@ -314,6 +314,14 @@ impl<'tcx> Cx<'tcx> {
                     if ad.did().is_local() && (ad.is_enum() || ad.is_struct()) {
                         if let ConstValue::Scalar(Scalar::Ptr(ptr, _)) = v {
                             let (prov, off) = ptr.into_raw_parts();
+                            // a static is only read as a constant when nothing can change it: not `mut`, no interior mutability
+                            let frozen_static = match tcx.try_get_global_alloc(prov.alloc_id()) {
+                                Some(GlobalAlloc::Static(did)) => !tcx.is_mutable_static(did) && inner.is_freeze(tcx, env),
+                                _ => true,
+                            };
+                            if !frozen_static {
+                                return J::obj(o);
+                            }
                             let pointee = ConstValue::Indirect { alloc_id: prov.alloc_id(), offset: off };
                             if let Some(t) = self.const_tree(env, pointee, *inner, 0) {
                                 o.push(("tree_ref", t));
@@ -414,7 +422,12 @@ impl<'tcx> Cx<'tcx> {
                 }
                 // a fat pointer kept in the memory of an enclosing constant: (pointer with provenance, length)
                 if let ConstValue::Indirect { alloc_id, offset } = v {
-                    if let Some(GlobalAlloc::Memory(a)) = tcx.try_get_global_alloc(alloc_id) {
+                    let mem = match tcx.try_get_global_alloc(alloc_id) {
+                        Some(GlobalAlloc::Memory(a)) => Some(a),
+                        Some(GlobalAlloc::Static(did)) if !tcx.is_mutable_static(did) => tcx.eval_static_initializer(did).ok(),
+                        _ => None,
+                    };
+                    if let Some(a) = mem {
                         let a = a.inner();
                         let ps = tcx.data_layout.pointer_size().bytes() as usize;
                         let off = offset.bytes() as usize;
